@@ -292,7 +292,7 @@ func main() {
 	out := os.Getenv("VERIF_OUT")
 	n := 220
 	if tier == "thorough" {
-		n = 20000
+		n = 10000
 	}
 	if v := os.Getenv("VERIF_N"); v != "" {
 		n, _ = strconv.Atoi(v)
